@@ -4,7 +4,8 @@ Constant folding: `eval_constant` of src/planner/rules/expr.rs (the `constant` c
 `ExprAnalysis`, computed bottom-up for every node added to the e-graph).
 
   Constant(v)                     -> Some(v)
-  binary op (arith, cmp, and, or, ||): both children known: NULL if either is NULL (short-cut),
+  binary op (arith, cmp, ||): both children known: NULL if either is NULL (short-cut); AND / OR:
+                                  three-valued logic when an operand is NULL (since /repo 543c949),
                                   else the ArrayImpl kernel on two one-element arrays, `.ok()?`
   unary op (neg, not)             : the same with one child
   IsNull(a)                       -> Bool(a is NULL)
@@ -28,14 +29,15 @@ def KVal.isNull : KVal → Bool
   | _ => false
 
 /-- Sequencing of the children's analyses: a panic anywhere wins. -/
-def foldBin (ra rb : KOut (Option KVal)) (K : Col → Col → KOut Col) : KOut (Option KVal) :=
+def foldBin (ra rb : KOut (Option KVal)) (K : Col → Col → KOut Col)
+    (sc : KVal → KVal → KVal := fun _ _ => .null) : KOut (Option KVal) :=
   match ra with
   | .ok oa =>
     match rb with
     | .ok ob =>
       match oa, ob with
       | some va, some vb =>
-        if va.isNull || vb.isNull then .ok (some .null)
+        if va.isNull || vb.isNull then .ok (some (sc va vb))
         else match K (constCol va 1) (constCol vb 1) with
           | .ok c => .ok (some c.get0)
           | .err => .ok none
@@ -58,6 +60,12 @@ def foldUn (ra : KOut (Option KVal)) (K : Col → KOut Col) : KOut (Option KVal)
   | .err => .err
   | .panic => .panic
 
+/-- The value of AND / OR when an operand is NULL (since /repo 543c949: three-valued logic; every
+other binary operator is NULL-strict). -/
+def logicShortcut (isAnd : Bool) (va vb : KVal) : KVal :=
+  if isAnd then (if va = .bool false ∨ vb = .bool false then .bool false else .null)
+  else (if va = .bool true ∨ vb = .bool true then .bool true else .null)
+
 /-- A node `eval_constant` does not fold: unknown, unless a child's analysis panicked. -/
 def foldNone (rs : List (KOut (Option KVal))) : KOut (Option KVal) :=
   if rs.any (fun r => match r with | .panic => true | _ => false) then .panic else .ok none
@@ -67,8 +75,8 @@ def foldC : KExpr → KOut (Option KVal)
   | .const v => .ok (some v)
   | .arith op a b => foldBin (foldC a) (foldC b) (Col.arith op)
   | .cmp op a b => foldBin (foldC a) (foldC b) (Col.cmp op)
-  | .and a b => foldBin (foldC a) (foldC b) Col.and
-  | .or a b => foldBin (foldC a) (foldC b) Col.or
+  | .and a b => foldBin (foldC a) (foldC b) Col.and (logicShortcut true)
+  | .or a b => foldBin (foldC a) (foldC b) Col.or (logicShortcut false)
   | .concat a b => foldBin (foldC a) (foldC b) Col.concat
   | .neg a => foldUn (foldC a) Col.neg
   | .not a => foldUn (foldC a) Col.not
@@ -90,32 +98,5 @@ def foldC : KExpr → KOut (Option KVal)
   | .substring s b c => foldNone [foldC s, foldC b, foldC c]
   | .replace a _ _ => foldNone [foldC a]
   | .repeat_ s k => foldNone [foldC s, foldC k]
-
-/-- Where the NULL short-cut is not the SQL value: AND / OR are not NULL-strict. -/
-def foldTags : KExpr → List String
-  | .and a b =>
-    foldTags a ++ foldTags b ++
-      (match foldC a, foldC b with
-       | .ok (some va), .ok (some vb) => if va.isNull || vb.isNull then ["fold:null-shortcut:and"] else []
-       | _, _ => [])
-  | .or a b =>
-    foldTags a ++ foldTags b ++
-      (match foldC a, foldC b with
-       | .ok (some va), .ok (some vb) => if va.isNull || vb.isNull then ["fold:null-shortcut:or"] else []
-       | _, _ => [])
-  | .arith _ a b => foldTags a ++ foldTags b
-  | .cmp _ a b => foldTags a ++ foldTags b
-  | .concat a b => foldTags a ++ foldTags b
-  | .neg a => foldTags a
-  | .not a => foldTags a
-  | .isnull a => foldTags a
-  | .cast _ a => foldTags a
-  | .ite c t e => foldTags c ++ foldTags t ++ foldTags e
-  | .like a _ => foldTags a
-  | .substring s b c => foldTags s ++ foldTags b ++ foldTags c
-  | .replace a _ _ => foldTags a
-  | .repeat_ s k => foldTags s ++ foldTags k
-  | .col _ => []
-  | .const _ => []
 
 end RlModel
